@@ -253,6 +253,9 @@ func roleTable() map[string]roleSpec {
 	return t
 }
 
+// handlers whose role is established once per element of a repeated request field
+var perIterationRole = map[string]bool{"marketplace.UpdateSellOrders": true}
+
 func min(a, b int) int {
 	if a < b {
 		return a
@@ -385,6 +388,22 @@ func checkC08(c *Ctx, e *Env) {
 			}
 		}
 		nEff += n
+		// … and every successful return, with or without an effect on its path, carries the role fact:
+		// a message whose signer lacks the role must fail, also where it would have changed nothing
+		// (sealing a sealed batch). Roles established per loop iteration (one order per update) are
+		// covered by the effect rule above.
+		if bad == "" && h.EP.Kind == "msg" && !perIterationRole[h.Key] {
+			for _, o := range h.Outs {
+				if o.Kind != exitReturn {
+					continue
+				}
+				end := &Event{Facts: len(o.St.facts), Seq: 1 << 30}
+				if why := spec.Check(h, o, end); why != "" {
+					bad = why + "; the handler returns success without it on path {" + outcomeLabel(h, o) + "}"
+					break
+				}
+			}
+		}
 		if bad != "" {
 			c.Violate("C08.AUTH", h.Key, p.Pos(h.Fn.Pos()), "role "+spec.Role+": "+bad, nil)
 		} else if n == 0 {
